@@ -14,7 +14,7 @@ def run(ctx) -> Report:
     if not ctx.replay:
         P.run_mc(rep, ctx, "C02")
     n = 1 if ctx.quick else 12
-    classes = {"idem": 160 * n, "idem-long": 40 * n, "plain": 120 * n, "acks0": 80 * n, "versions": 120 * n, "flush": 80 * n, "idem-noleader": 40 * n, "plain-noleader": 40 * n,
+    classes = {"idem": 160 * n, "idem-long": 40 * n, "plain": 120 * n, "acks0": 80 * n, "versions": 120 * n, "flush": 80 * n, "idem-noleader": 40 * n, "plain-noleader": 40 * n, "acks0-cancel": 40 * n, "plain-cancel": 40 * n, "idem-cancel": 30 * n,
                "stop": 80 * n}
     P.conformance(rep, ctx, "C02", classes)
     rep.extra.update(
